@@ -118,6 +118,8 @@ def draw_config(ds) -> dict:
     c["R"] = ds.pick(RETRIES, "cfg.max_retries")
     c["M"] = ds.pick(MEMBERS, "cfg.max_members")
     c["boxk"] = ds.pick(BOXK, "cfg.target_halfwidth_in_steps")
+    # further components may have their own half-width, so that the interval is left through a component other than the first
+    c["boxk_more"] = [ds.pick(BOXK, f"cfg.target_halfwidth_in_steps[{k}]") for k in range(1, c["dim"])]
     c["policy"] = ds.choose(6, "cfg.shrink_policy")
     c["seed"] = [ds.pick(SEEDVALS, f"cfg.seed[{k}]") for k in range(nrep)]
     c["pfail"] = ds.pick(PFAIL, "cfg.fault_rate")
@@ -131,7 +133,7 @@ def run_protocol(ctx: RunCtx, c: dict) -> None:
     seedv = np.array(c["seed"], float)
     step0 = np.array(c["step"], float)
     prm0 = seedv[idx]
-    half = c["boxk"] * np.abs(step0)
+    half = np.array([c["boxk"]] + list(c.get("boxk_more", [c["boxk"]] * (dim - 1)))[:dim]) * np.abs(step0)
     tmin, tmax = prm0 - half, prm0 + half
     policy = _policy(c["policy"])
     model = ContinuationModel(seed=seedv, idx=idx, step0=step0, target_min=tmin, target_max=tmax,
